@@ -110,7 +110,9 @@ class EventDispatcher:
         for sub_id in self.subscribers:
             try:
                 self.subscribers[sub_id].send(ev)
-            except BrokenPipeError:
+            except (OSError, EOFError):
+                # BrokenPipeError, ConnectionResetError, closed handle ...
+                # One unreachable subscriber must not stop the dispatcher.
                 logger.warning(
                     'Subscriber#%s broken pipe', sub_id,
                 )
@@ -134,6 +136,6 @@ class EventDispatcher:
         try:
             self.subscribers[sub_id].send(payload)
             done = True
-        except (BrokenPipeError, EOFError):
+        except (OSError, EOFError):
             pass
         return done
